@@ -89,7 +89,8 @@ def inputOk (vm : VarMap) (root : Term) (c : Clause) : Bool :=
   match falsify vm c with
   | none => false
   | some p =>
-    (eval3 p root == some false) || p.any (fun e => struct3 p e.1 == some (!e.2))
+    (eval3 p root == some false) || p.any (fun e => struct3 p e.1 == some (!e.2)) ||
+      p.any (fun e => p.get e.1 == some (!e.2))        -- tautological clause
 
 /-- the propositional assignment induced by an interpretation through the variable table -/
 def inducedAsg (vm : VarMap) (I : Interp) : Asg := fun v =>
